@@ -42,6 +42,7 @@ func runC08(c *Ctx) {
 	c08R2(c, r)
 	c08R3(c, r)
 	c08R4(c, r)
+	c08R5(c)
 }
 
 // ---------------------------------------------------------------- R2
@@ -712,7 +713,7 @@ func c08R1(c *Ctx, r *c08Roles) {
 
 func c08R3(c *Ctx, r *c08Roles) {
 	const R3 = "C08.R3.load-protocol"
-	c.Expect(R3, 8)
+	c.Expect(R3, 10)
 	refName, _ := c08RefNameConst(c.P)
 	isTag := func(n string) bool { return n == "(~/content.Tagger).Tag" || n == c08nResTag }
 	// loadIndex role: a range over ocispec.Index.Manifests below which (directly or in a helper) every entry is tagged
@@ -978,6 +979,99 @@ func c08R3(c *Ctx, r *c08Roles) {
 		c.Check(R3, FnName(f)+"|loads-index", f.Pos(), loads, ifelse(loads, "the constructor loads index.json through the common loader", "the constructor does not load index.json through the common loader"))
 		c.Check(R3, FnName(f)+"|validates-layout-version", f.Pos(), validates, ifelse(validates, "oci-layout's imageLayoutVersion is compared with ocispec.ImageLayoutVersion", "the constructor does not validate oci-layout's version"))
 	}
+	// sibling agreement: the read-write and the read-only opener accept the same documents — once index.json /
+	// oci-layout decoded, a document is rejected only by the shared load protocol (the common loader, the version
+	// comparison), never by an additional test on the decoded value in one of the openers
+	isShared := func(g *ssa.Function) bool {
+		if g == nil || !inModule(g) {
+			return false
+		}
+		if loadersContain(g) {
+			return true
+		}
+		for _, sv := range StringConstsComparedWith(g, func(v ssa.Value) bool { return isFieldLoad(v, "Version") }) {
+			if okVer && sv == constant.StringVal(ver.Val()) {
+				return true
+			}
+		}
+		return false
+	}
+	nDec := 0
+	for _, f := range c.P.FuncsOfPkg(c08Pkg) {
+		if isShared(f) {
+			continue
+		}
+		for _, dc := range Calls(f, func(n string) bool { return n == "(*encoding/json.Decoder).Decode" || n == "encoding/json.Unmarshal" }) {
+			args := dc.Common().Args
+			doc, isAlloc := strip(args[len(args)-1]).(*ssa.Alloc)
+			if !isAlloc {
+				continue
+			}
+			tn := short(doc.Type().(*types.Pointer).Elem().String())
+			if tn != "ocispec.Index" && tn != "ocispec.ImageLayout" {
+				continue
+			}
+			nDec++
+			key := FnName(f) + "|no-extra-rejection-of-decoded-" + tn[strings.LastIndex(tn, ".")+1:]
+			e := ErrOf(dc)
+			if e == nil {
+				c.Violation(R3, key, dc.Pos(), "the decode error is discarded")
+				continue
+			}
+			decoded, _, _ := NilTests(f, Aliases(e))
+			ct := newCut()
+			for _, call := range Calls(f, func(string) bool { return true }) {
+				if isShared(StaticCallee(call)) {
+					ct.Instr(call.(ssa.Instruction))
+				}
+			}
+			bad := ""
+			var badPos = dc.Pos()
+			errIdx := ErrResultIndex(f.Signature)
+			for _, i := range Ifs(f) {
+				if !c09Uses(i.Cond, doc, 0) {
+					continue
+				}
+				// reachable after a successful decode without having entered the shared protocol
+				reachable := false
+				for _, de := range decoded {
+					if reach(de.To, 0, i, ct) {
+						reachable = true
+					}
+				}
+				if !reachable || errIdx < 0 {
+					continue
+				}
+				// one of its branches returns an error without going through the shared protocol
+				for _, sb := range i.Block().Succs {
+					for _, ret := range Returns(f) {
+						if !reach(sb, 0, ret, ct) {
+							continue
+						}
+						for _, v := range resolveAt(ret.Results[errIdx], ret.Block(), nil, ret, map[ssa.Value]bool{}) {
+							if cst, isC := v.(*ssa.Const); isC && cst.Value == nil {
+								continue
+							}
+							if _, isZero := v.(zeroMarker); isZero {
+								continue
+							}
+							badPos = i.Cond.Pos()
+							if !badPos.IsValid() {
+								badPos = blockPos(i.Block())
+							}
+							bad = c09Trunc(i.Cond.String()) + " at " + c.P.Pos(badPos)
+						}
+					}
+				}
+			}
+			c.Check(R3, key, badPos, bad == "", ifelse(bad == "", "after the document decoded, it is rejected only by the shared load protocol",
+				"the decoded document is rejected by an extra test ("+bad+") that the other way of opening the layout does not make: a layout that one constructor opens is refused by another "+
+					"(e.g. `\"manifests\": null`, which Store.saveIndex writes for an emptied store)"))
+		}
+	}
+	if nDec == 0 {
+		c.LostAnchor(R3, "decoding of index.json / oci-layout in ~/content/oci")
+	}
 }
 
 // ---------------------------------------------------------------- R4
@@ -1059,7 +1153,119 @@ func c08R4(c *Ctx, r *c08Roles) {
 	}
 }
 
+// ---------------------------------------------------------------- R5 (tar view)
+
+// c08R5: in internal/fs/tarfs a "does not exist" answer is produced only on
+// the miss edge of the lookup of the requested name in the entries index.
+func c08R5(c *Ctx) {
+	const R5 = "C08.R5.tar-not-exist-only-when-absent"
+	c.Expect(R5, 1)
+	tfs := c.P.Named("internal/fs/tarfs", "TarFS")
+	if tfs == nil {
+		c.LostAnchor(R5, "~/internal/fs/tarfs.TarFS")
+		return
+	}
+	isIndex := func(v ssa.Value) bool { // a load of the map[string]… field of TarFS
+		for _, rt := range Roots(v) {
+			u, ok := rt.(*ssa.UnOp)
+			if !ok || u.Op != token.MUL {
+				return false
+			}
+			fa, ok := u.X.(*ssa.FieldAddr)
+			if !ok {
+				return false
+			}
+			pt, ok := fa.X.Type().Underlying().(*types.Pointer)
+			if !ok || !types.Identical(pt.Elem(), tfs) {
+				return false
+			}
+			if _, isMap := u.Type().Underlying().(*types.Map); !isMap {
+				return false
+			}
+		}
+		return true
+	}
+	miss := func(fn *ssa.Function, _ c09Vals) []Edge {
+		var out []Edge
+		AllInstrs(fn, func(in ssa.Instruction) {
+			lk, ok := in.(*ssa.Lookup)
+			if !ok || !isIndex(lk.X) {
+				return
+			}
+			if pf, _ := c09ParamOf(lk.Index); pf == nil {
+				return // not the requested name
+			}
+			if lk.CommaOk {
+				for _, r := range *lk.Referrers() {
+					if e, ok := r.(*ssa.Extract); ok {
+						if e.Index == 1 {
+							_, fe := BoolTests(fn, Aliases(e))
+							out = append(out, fe...)
+						} else {
+							ne, _, _ := NilTests(fn, Aliases(e))
+							out = append(out, ne...)
+						}
+					}
+				}
+			} else {
+				ne, _, _ := NilTests(fn, Aliases(lk))
+				out = append(out, ne...)
+			}
+		})
+		return out
+	}
+	n := 0
+	for _, f := range c.P.FuncsOfPkg("internal/fs/tarfs") {
+		AllInstrs(f, func(in ssa.Instruction) {
+			u, ok := in.(*ssa.UnOp)
+			if !ok || u.Op != token.MUL {
+				return
+			}
+			g, ok := u.X.(*ssa.Global)
+			if !ok || g.Name() != "ErrNotExist" || g.Pkg == nil || (g.Pkg.Pkg.Path() != "io/fs" && g.Pkg.Pkg.Path() != "os") {
+				return
+			}
+			// only where it is produced as an answer (not where it is merely compared with)
+			produced := false
+			for _, r := range *u.Referrers() {
+				switch x := r.(type) {
+				case *ssa.Store, *ssa.Return, *ssa.MakeInterface, *ssa.ChangeInterface, *ssa.Phi:
+					produced = true
+				case ssa.CallInstruction:
+					if n := CalleeName(x); n != "errors.Is" {
+						produced = true
+					}
+				}
+			}
+			if !produced {
+				return
+			}
+			n++
+			ok = c09GuardedUp(c.P, u, nil, miss, 2)
+			c.Check(R5, FnName(f)+"|fs.ErrNotExist", u.Pos(), ok, ifelse(ok, "fs.ErrNotExist is answered only on the miss edge of the lookup of the requested name in the entries index",
+				"a \"does not exist\" answer is produced for a name that is present in the index of the archive: the OCI store turns it into ErrNotFound, graph indexing silently skips the node, "+
+					"so a layout opened from a tar loses content (Fetch fails, predecessors missing) that the same layout opened from a directory has"))
+		})
+	}
+	if n == 0 {
+		c.LostAnchor(R5, "production of fs.ErrNotExist in ~/internal/fs/tarfs")
+	}
+}
+
 var c08Mutants = []Mutant{
+	// R3 sibling agreement, R5
+	{Name: "rw-open-rejects-empty-index", File: "content/oci/oci.go",
+		Old: "\ts.index = &index\n", New: "\tif len(index.Manifests) == 0 && index.MediaType == \"\" {\n\t\treturn errors.New(\"empty index\")\n\t}\n\ts.index = &index\n",
+		Expect: "C08.R3.load-protocol|(*~/content/oci.Store).loadIndexFile|no-extra-rejection-of-decoded-Index"},
+	{Name: "readonly-open-requires-manifests", File: "content/oci/readonlyoci.go",
+		Old:    "\treturn loadIndex(ctx, &index, s.storage, s.tagResolver, s.graph)\n",
+		New:    "\tif index.Manifests == nil {\n\t\treturn fmt.Errorf(\"missing manifests: %w\", errdef.ErrUnsupported)\n\t}\n\treturn loadIndex(ctx, &index, s.storage, s.tagResolver, s.graph)\n",
+		Expect: "C08.R3.load-protocol|(*~/content/oci.ReadOnlyStore).loadIndexFile|no-extra-rejection-of-decoded-Index"},
+	{Name: "tar-stat-not-exist-for-present-entry", File: "internal/fs/tarfs/tarfs.go",
+		Old:    "\treturn entry.header.FileInfo(), nil\n}\n\n// getEntry",
+		New:    "\tif entry.header.Size < 0 {\n\t\treturn nil, &fs.PathError{Op: \"stat\", Path: name, Err: fs.ErrNotExist}\n\t}\n\treturn entry.header.FileInfo(), nil\n}\n\n// getEntry",
+		Expect: "C08.R5.tar-not-exist-only-when-absent|(*~/internal/fs/tarfs.TarFS).Stat"},
+
 	// R1
 	{Name: "saveindex-drops-multi-tagged", File: "content/oci/oci.go",
 		Old: "\t\tif ref != desc.Digest.String() {\n\t\t\tannotations := make(", New: "\t\tif ref != desc.Digest.String() && !tagged.Contains(desc.Digest) {\n\t\t\tannotations := make(",
